@@ -1,11 +1,7 @@
 ------------------------------ MODULE MC_lists ------------------------------
 (* Bounded model of the list family (C03): every list state x every command instance. *)
-EXTENDS MCBase
+EXTENDS Universe
 
-ka == B("a")
-kb == B("b")
-x == B("x")
-y == B("y")
 Keys == {ka, kb}
 Elems == {x, y}
 ListsUpTo(n) == UNION {[1..m -> Elems] : m \in 1..n}
@@ -13,11 +9,9 @@ ValU == {VList(l, 0) : l \in ListsUpTo(3)} \cup {VStr(x, 0), VSet({x}, 0)}
 Dbs0 == UNION {[K -> ValU] : K \in SUBSET Keys}
 ListStates == {WithDb0(InitServer({1}), d) : d \in Dbs0}
 
-N(i) == Itoa(i)
 Idx == {N(i) : i \in -5..5} \cup {B("2147483648"), B("-2147483649"), B("9223372036854775807"), B("-9223372036854775808")}
 IdxS == {N(i) : i \in {-4, -2, -1, 0, 1, 3}} \cup {B("9223372036854775807"), B("-9223372036854775808")}
 Cnt == {N(i) : i \in -2..4}
-C(name, args) == <<B(name)>> \o args
 
 ListCmds ==
     UNION {
@@ -38,7 +32,7 @@ ListCmds ==
       {C("LPOS", <<k, e, B("COUNT"), c>>) : k \in Keys, e \in {x}, c \in Cnt},
       {C("LPOS", <<k, e, B("rank"), r, B("COUNT"), c, B("MAXLEN"), m>>) : k \in {ka}, e \in {x}, r \in {N(-2), N(-1), N(1), N(2)}, c \in {N(0), N(1), N(2)}, m \in {N(-1), N(0), N(1), N(2)}},
       {C("LPOS", <<k, e, B("MAXLEN"), m, B("RANK"), r>>) : k \in {ka}, e \in {x}, r \in {N(-1), N(1)}, m \in {N(0), N(2)}},
-      {C("LMOVE", <<s, d, f, t>>) : s \in Keys, d \in Keys, f \in {B("LEFT"), B("right")}, t \in {B("LEFT"), B("RIGHT")}},
+      {C("LMOVE", <<s, d, fr, t>>) : s \in Keys, d \in Keys, fr \in {B("LEFT"), B("right")}, t \in {B("LEFT"), B("RIGHT")}},
       {C("LMOVE", <<ka, kb, B("UP"), B("LEFT")>>)},
       {C("RPOPLPUSH", <<s, d>>) : s \in Keys, d \in Keys},
       {C("LMPOP", <<N(1), k, w>>) : k \in Keys, w \in {B("LEFT"), B("RIGHT")}},
